@@ -12,7 +12,13 @@ import LentilVerif.Gen.FourierWiring
 A buffer passing both is overwritten with the transform of the input and is the returned object (`Gen.fwOutResultIsBuffer`).
 **Not modelled:** alignment (buffers are assumed aligned); aliasing — the input is read as a snapshot, so the in-place call
 `out=f` is outside this model (the real code relies on `E1.dot(f)` being evaluated before `np.dot(·, E2, out=out)` writes; that order
-lives inside NumPy and is only observed by the in-place cases of tools/harness/c01.py); `idft2(out=)` (differential only).
+lives inside NumPy and is only observed by the in-place cases of tools/harness/c01.py).
+
+`idft2(F, …, out=out)` (`idft2Out`, wave 12): `out` is handed to `dft2` (`Gen.fwIdft2PassesOut`, regenerated), so the same two checks
+decide; the array `dft2` returned — the buffer — is then conjugated in place (`np.conj(X, out=X)`, `Gen.fwIdft2ConjInPlace`) and, in
+the non-unitary branch, divided in place (`np.divide(X, n, out=X)`, `Gen.fwIdft2DivideInPlace`): the buffer ends up holding the final
+values and is the returned object. Were the division a fresh `X / n`, the buffer would keep the undivided values and the result
+would be another array — the model follows the regenerated flags, the theorem `C01.idft2_out_buffer` pins their values.
 Mathlib-free. -/
 namespace Lentil
 
@@ -63,6 +69,23 @@ def dft2Out (f : Arr K) (αr αc : R) (M N : Int) (shr shc : R) (offr offc : Int
     else
       let F := dft2 f αr αc M N shr shc offr offc unitary              -- whatever `b.arr` held is overwritten
       .ok F (some F) Gen.fwOutResultIsBuffer
+
+/-- `idft2(F, alpha, shape, shift, unitary, out=out)`: `dft2` of the conjugated input with `out` passed on, then the in-place
+conjugation and (non-unitary) the in-place division of the array `dft2` returned -/
+def idft2Out (F : Arr K) (αr αc : R) (M N : Int) (shr shc : R) (unitary : Bool) (out : Option (OutBuf K)) : OutCall K :=
+  let Fc : Arr K := { F with get := fun i j => CxLike.conj (R := R) (F.get i j) }
+  match dft2Out Fc αr αc M N shr shc Gen.fwIdft2Offset.1 Gen.fwIdft2Offset.2 unitary (if Gen.fwIdft2PassesOut then out else none) with
+  | .typeError => .typeError
+  | .valueError => .valueError
+  | .ok G buf isBuf =>
+    -- `np.conj(X, out=X)`: the object `dft2` returned (the buffer when `isBuf`) now holds the conjugate
+    let G1 : Arr K := { G with get := fun i j => CxLike.conj (R := R) (G.get i j) }
+    -- `if unitary: return X` / `return np.divide(X, n, out=X)`
+    let G2 : Arr K := { G with get := fun i j =>
+      let z := CxLike.conj (R := R) (G.get i j)
+      if unitary then z else CxLike.divInt (R := R) z (F.s0 * F.s1) }
+    let inPlace : Bool := Gen.fwIdft2ConjInPlace && (unitary || Gen.fwIdft2DivideInPlace)
+    .ok G2 (buf.map fun _ => if inPlace then G2 else G1) (isBuf && inPlace)
 
 /-- the outcome as a tag (what the correspondence compares with the exception class the real call raises) -/
 def OutCall.tag {K : Type} : OutCall K → String
